@@ -13,6 +13,7 @@ import (
 	"github.com/hujm2023/go-sms-protocol/codec"
 	"github.com/hujm2023/go-sms-protocol/datacoding"
 	"github.com/hujm2023/go-sms-protocol/datacoding/gsm7encoding"
+	"github.com/hujm2023/go-sms-protocol/packet"
 	"github.com/hujm2023/go-sms-protocol/smgp"
 	"github.com/hujm2023/go-sms-protocol/smgp/smgp30"
 	"github.com/hujm2023/go-sms-protocol/smpp"
@@ -117,7 +118,7 @@ func runMem(c Case, tr *Tracer) {
 	cm, sm := codec.NewCMPPCodec(), codec.NewSMPPCodec()
 	conn := &scriptedConn{fault: "eof"}
 	for s := 0; s < steps; s++ {
-		switch rr.Intn(14) {
+		switch rr.Intn(15) {
 		case 0, 1: // encode, then the caller scribbles over the returned bytes
 			tn := typeNames[rr.Intn(len(typeNames))]
 			a := defaultAssign(rr, tn, true)
@@ -210,6 +211,28 @@ func runMem(c Case, tr *Tracer) {
 			lr.read = func() string { return string(lr.owned) }
 			add(lr)
 			emit(Ev{"ev": "Codec", "r": id, "fn": "DecodeBlocked", "same": string(frame) == string(img)}, "Codec")
+		case 14: // the caller's own packet.Writer stays in use while the library encodes (sometimes after an encode that failed)
+			if rr.Intn(2) == 0 {
+				ftn := []string{"smgp30.Submit", "cmpp20.PduSubmit", "cmpp30.Deliver", "sgip12.Bind", "smgp30.Login", "cmpp30.Submit", "cmpp30.Connect",
+					"sgip12.Submit", "smgp30.Deliver", "cmpp20.PduDeliver"}[rr.Intn(10)]
+				fa := defaultAssign(rr, ftn, true)
+				for _, f := range layouts[ftn].Fields {
+					if f.K == "F" {
+						fa[f.N] = fval{b: nulFree(rr, f.W+1+rr.Intn(5))}
+						break
+					}
+				}
+				_, _ = build(ftn, fa).IEncode()
+			}
+			hw := packet.NewPacketWriter()
+			own := nulFree(rr, 1+rr.Intn(40))
+			hw.WriteBytes(own)
+			id := nextID
+			nextID++
+			lr := &liveResult{id: id, kind: "writer", tn: "packet.Writer"}
+			lr.read = func() string { b, _ := hw.Bytes(); return string(b) }
+			add(lr)
+			emit(Ev{"ev": "Codec", "r": id, "fn": "packet.Writer", "same": lr.snap == string(own)}, "Codec")
 		case 13: // a decode that fails half-way: the error it returns is a value too, and the input is reused afterwards
 			tn := typeNames[rr.Intn(len(typeNames))]
 			img, err := build(tn, defaultAssign(rr, tn, true)).IEncode()
